@@ -241,7 +241,14 @@ func (e *specEnv) loadField(ref T, st types.Type, idx int) sval {
 		is := x.intSort()
 		return sval{v: Val{K: vSlice, Arr: get(key+"#a", SInt), Off: get(key+"#o", is), Len: get(key+"#l", is), Cap: get(key+"#c", is), Typ: ft}, typ: ft}
 	}
-	return sval{v: scalar(get(key, x.sortOf(ft))), typ: ft}
+	r := scalar(get(key, x.sortOf(ft)))
+	if it, ok := ft.Underlying().(*types.Interface); ok && it.NumMethods() > 0 && !e.old {
+		// well-typedness of the stored interface value (closed world for the package's own interfaces)
+		if _, closed := x.p.closedImpls(ft); closed {
+			e.s.assume(Or(Eq(r.T, T{"inil", SIface}), x.implementsT(r.T, ft)))
+		}
+	}
+	return sval{v: r, typ: ft}
 }
 
 func (e *specEnv) lookup(name string) (sval, bool) {
@@ -569,6 +576,8 @@ func (e *specEnv) coerce(v sval, other sval) (T, error) {
 			f, _ := new(big.Float).SetInt(v.lit).Float64()
 			return FloatLit(f), nil
 		case SPos:
+			return T{v.lit.String(), SInt}, nil
+		case "":
 			return T{v.lit.String(), SInt}, nil
 		}
 		return T{}, fmt.Errorf("integer literal used with sort %s", so)
@@ -934,6 +943,18 @@ func (e *specEnv) evalCall(n *ast.CallExpr) (sval, error) {
 			}
 		}
 		return sval{v: scalar(Not(Select(base, ref, SBool))), typ: boolT}, nil
+	case "nan":
+		return sval{v: scalar(T{"(_ NaN 11 53)", SFloat}), typ: types.Typ[types.Float64]}, nil
+	case "strlt":
+		a, err := arg(0)
+		if err != nil {
+			return sval{}, err
+		}
+		b, err := arg(1)
+		if err != nil {
+			return sval{}, err
+		}
+		return sval{v: scalar(mk(SBool, "str.lt_", a.v.T, b.v.T)), typ: boolT}, nil
 	case "isNaN":
 		v, err := arg(0)
 		if err != nil {
@@ -963,6 +984,21 @@ func (e *specEnv) evalCall(n *ast.CallExpr) (sval, error) {
 		}
 		x.needTheory = true
 		return sval{v: scalar(Select(e.heapOf("navpos", SArray(SInt, SPos)), mk(SInt, "iptr", v.v.T), SPos))}, nil
+	case "k", "epoch", "ctxp": // ghost counters of a query object
+		v, err := arg(0)
+		if err != nil {
+			return sval{}, err
+		}
+		ref := v.v.T
+		if ref.Sort == SIface {
+			ref = mk(SInt, "iptr", ref)
+		}
+		x.needTheory = true
+		so := SInt
+		if name == "ctxp" {
+			so = SPos
+		}
+		return sval{v: scalar(Select(e.heapOf("ghost:"+name, SArray(SInt, so)), ref, so))}, nil
 	case "tagof":
 		v, err := arg(0)
 		if err != nil {
